@@ -14,6 +14,8 @@ from . import universe as U
 from .repo import P1, P2, PR
 
 THRESHOLDS = (1e-2, 1e-3, 1e-9)
+STOP_CPU = 0.3                # alarm for solve() on stopping games in checks other than C06 (legitimate solves: < 1 ms)
+STOP_TIMEOUT_CAP = 20         # a shard gives up after this many unreturned runs on stopping games (reported as incomplete)
 NONSTOP_CPU = 0.05            # alarm for solve() on non-stopping structures: result used if it comes, never judged otherwise
 
 _UNIVERSES = {}
@@ -74,15 +76,22 @@ def analyse_game(prop, sc, rewards, acc, thresholds=()):
 
     runs = {}
     for prune in (True, False):
-        if stopping:
+        if stopping and prop == "C06":
             gr = J.GameRun(sc, rewards, prune, confirm=True)
+        elif stopping:
+            # termination on stopping games is C06's verdict; the other properties only need the result, so a run that
+            # does not come back within the alarm is counted (and ends the shard early if it keeps happening), never judged
+            gr = J.GameRun(sc, rewards, prune, confirm=False,
+                           outcome=Rn.solve(sc.game(rewards), prune, cpu_s=STOP_CPU, confirm=False))
+            if gr.out.kind == "timeout":
+                acc["stopping_timeouts"] = acc.get("stopping_timeouts", 0) + 1
         else:
             gr = J.GameRun(sc, rewards, prune, confirm=False,
                            outcome=Rn.solve(sc.game(rewards), prune, cpu_s=NONSTOP_CPU, confirm=False))
         runs[prune] = gr
         acc["executions"] += 1
         _count(acc, "outcomes", gr.out.kind)
-        if gr.out.kind == "timeout":
+        if gr.out.kind == "timeout" and not stopping:
             acc["nonstopping_unjudged"] += 1
 
     if prop == "C06":
@@ -310,7 +319,7 @@ def work(shard):
     kind = shard["kind"]
     prop = shard["prop"]
     acc = _new_acc()
-    vcap = 6
+    vcap = 3 if prop == "C06" else 6
     if kind == "universe":
         Un = universe(shard["universe"])
         it = Un.structures(shard["lo"], shard["hi"], shard.get("stride", 1), shard.get("offset", 0))
@@ -328,7 +337,7 @@ def work(shard):
                     record(prop, sc, rewards, f, k, acc, shard["universe"])
             if len(acc["samples"]) < 2 and acc["structures"] % 97 == 1:
                 acc["samples"].append({"universe": shard["universe"], "game": sc.game(rewards)})
-            if acc.get("n_violations", 0) >= vcap:
+            if acc.get("n_violations", 0) >= vcap or acc.get("stopping_timeouts", 0) >= STOP_TIMEOUT_CAP:
                 acc["truncated"] = 1
                 break
     elif kind == "games":
@@ -345,7 +354,7 @@ def work(shard):
                 record(prop, sc, rewards, f, k, acc, shard["family"])
             if len(acc["samples"]) < 1 and acc["structures"] % 211 == 1:
                 acc["samples"].append({"universe": shard["family"], "game": game})
-            if acc.get("n_violations", 0) >= vcap:
+            if acc.get("n_violations", 0) >= vcap or acc.get("stopping_timeouts", 0) >= STOP_TIMEOUT_CAP:
                 acc["truncated"] = 1
                 break
     return acc
@@ -425,10 +434,14 @@ def run_plan(ctx, prop, parts, rule, assumptions, kf_what=None, vacuity=None):
            "out_of_hypothesis_skipped": tot.get("skipped", 0),
            "nonstopping_solve_timeouts_not_judged": tot.get("nonstopping_unjudged", 0),
            "max_error_over_tolerance": round(tot.get("max_ratio", 0.0), 4),
+           "stopping_games_without_result_within_alarm": tot.get("stopping_timeouts", 0),
            "exhaustive": not truncated, "samples": tot.get("samples", [])[:6]}
     for k in ("exact_states_judged", "exact_states_out_of_scope", "skipped_structures"):
         if k in tot:
             cov[k] = tot[k]
+    if tot.get("stopping_timeouts", 0):
+        print("INCOMPLETE: solve() did not return within %.1f s CPU on %d stopping games; those runs were not judged by %s (termination is C06's verdict)"
+              % (STOP_CPU, tot["stopping_timeouts"], prop))
     if tot.get("max_ratio", 0.0) > 1.0:
         raise par.HarnessError("error/tolerance ratio above 1 without a violation")
     return {"coverage": cov, "violations": tot.get("violations", []), "known": known, "assumptions": assumptions}
